@@ -201,3 +201,36 @@ Proof.
   split; [intros x; apply lf_register_in|].
   split; [apply lf_register_nodup|apply lf_register_fresh].
 Qed.
+
+(* ------------------------------------------------------------------ request -> query string *)
+
+Lemma lf_escape_plain q : forallb lf_unescaped_in_query q = true -> lf_escape_query q = q.
+Proof.
+  induction q as [|c tl IH]; [reflexivity|]. cbn [forallb lf_escape_query].
+  intros H. apply andb_true_iff in H. destruct H as [H1 H2]. rewrite H1, IH by exact H2. reflexivity.
+Qed.
+
+(* one Uri-Query option made of bytes that need no escaping reaches the printer unchanged; no
+   option: no filter.  The GET handler then delivers the listing restricted by that filter. *)
+Theorem lf_handle_get_listing rs :
+  lf_table_ok rs = true ->
+  (len (lf_listing (lf_selected None rs)) <= lf_status_max ->
+   lf_handle_get rs [] = Lf205 (lf_listing (lf_selected None rs))) /\
+  (forall q, q <> [] -> forallb lf_unescaped_in_query q = true ->
+   len (lf_listing (lf_selected (Some q) rs)) <= lf_status_max ->
+   lf_handle_get rs [q] = Lf205 (lf_listing (lf_selected (Some q) rs))).
+Proof.
+  intros Hok. split.
+  - intros Hm. unfold lf_handle_get. cbn [lf_get_query map lf_join_amp].
+    apply lf_get_equals_listing; assumption.
+  - intros q Hq Hp Hm. unfold lf_handle_get, lf_get_query. cbn [map lf_join_amp].
+    rewrite lf_escape_plain by exact Hp. destruct q; [contradiction|].
+    apply lf_get_equals_listing; assumption.
+Qed.
+
+(* in general the handler filters with the escaped text of the options *)
+Theorem lf_handle_get_general rs opts :
+  lf_table_ok rs = true ->
+  len (lf_listing (lf_selected (lf_get_query opts) rs)) <= lf_status_max ->
+  lf_handle_get rs opts = Lf205 (lf_listing (lf_selected (lf_get_query opts) rs)).
+Proof. intros. unfold lf_handle_get. apply lf_get_equals_listing; assumption. Qed.
